@@ -325,6 +325,10 @@ class Gen:
                     t_ = key.decode()
                     if t_.isalnum(): ks = 's"' + t_ + '"'
                 except UnicodeDecodeError: pass
+            if 0 < len(key) <= 8 and rng.random() < .35:
+                # a `d` key of WRITE_CACHE is the unsigned big-endian number, at least one byte (d0 -> 00, d255 -> ff, d256 -> 0100)
+                n_ = int.from_bytes(key, 'big')
+                if n_.to_bytes(max(1, (n_.bit_length() + 7) // 8), 'big') == key: ks = 'd' + str(n_)
             return [s, ks, ('d' + str(cnt)) if rng.random() < .6 else 'x%02x' % cnt]
         if k == 'f4':
             ft = self.float_text(n[2])
